@@ -34,6 +34,13 @@ structure LocallySound (F : FlagTable) : Prop where
   longest_cps : ∀ aa ac, (F.longest aa ac).cps = false → aa = true ∨ ac = false
   backtrack : F.backtrack.as = false
   fail : F.fail.as = false
+  apply_as : ∀ a b, (F.apply a b).as = true → a.as = true ∧ b.as = true
+  apply_cps : ∀ a b, (F.apply a b).cps = false →
+    (F.apply a b).as = true ∨ ((a.cps = false ∨ a.as = true) ∧ b.as = true)
+  py_as : F.py.as = true
+  optable_as : ∀ hp c, (F.optable hp c).as = true → c.as = true
+  optable_cps : ∀ hp c, (F.optable hp c).cps = false →
+    (F.optable hp c).as = true ∨ (hp = false ∧ (c.cps = false ∨ c.as = true))
 
 def Sound (F : FlagTable) (run : Run) : Prop :=
   ∀ e p r, run e p = some r →
@@ -266,6 +273,175 @@ namespace Sourcer
 
 variable {F : FlagTable}
 
+/-- with operands that always succeed the table always succeeds -/
+theorem genOT_as {F : FlagTable} {run : Run} (T : TableExprs) (ha : (flagsOf F T.operands).as = true) :
+    ∀ fuel ph st last r, genOT F run T fuel ph st last = some r → r.status = true := by
+  intro fuel
+  induction fuel with
+  | zero => intro ph st last r h; simp [genOT] at h
+  | succ n ih =>
+    intro ph st last r h
+    cases ph with
+    | pre =>
+      simp only [genOT] at h
+      split at h
+      · exact ih _ _ _ _ h
+      · split at h
+        · simp at h
+        · split at h
+          · split at h
+            · simp at h
+            · exact ih _ _ _ _ h
+          · exact ih _ _ _ _ h
+    | operand =>
+      simp only [genOT] at h
+      split at h
+      · simp at h
+      · rename_i r' hr'
+        have hok : okF F T.operands r' = true := by simp [okF, ha]
+        simp only [hok, ↓reduceIte] at h
+        exact ih _ _ _ _ h
+    | post =>
+      simp only [genOT] at h
+      split at h
+      · exact ih _ _ _ _ h
+      · split at h
+        · simp at h
+        · split at h
+          · split at h
+            · simp at h
+            · split at h
+              · simp at h
+              · split at h
+                · simp at h
+                · exact ih _ _ _ _ h
+          · exact ih _ _ _ _ h
+    | inf =>
+      simp only [genOT] at h
+      split at h
+      · split at h
+        · simp at h
+        · simp at h; subst h; rfl
+      · split at h
+        · simp at h
+        · split at h
+          · split at h
+            · simp at h
+            · split at h
+              · simp at h
+              · split at h
+                · simp at h
+                · simp at h; subst h; rfl
+              · exact ih _ _ _ _ h
+          · split at h
+            · simp at h
+            · simp at h; subst h; rfl
+
+theorem popOperator_nonempty {ops ops' : List OpEntry} {xs xs' : List OTree}
+    (h : popOperator ops xs = some (ops', xs')) : xs' ≠ [] := by
+  unfold popOperator at h
+  split at h
+  · simp at h
+  · split at h
+    · split at h
+      · simp at h; obtain ⟨_, h⟩ := h; subst h; simp
+      · simp at h
+    · split at h
+      · simp at h; obtain ⟨_, h⟩ := h; subst h; simp
+      · simp at h
+
+theorem reduceInfix_nonempty (prec : Int) : ∀ (ops : List OpEntry) (xs : List OTree) (ops' : List OpEntry)
+    (xs' : List OTree), reduceInfix prec ops xs = some (.go ops' xs') → xs ≠ [] → xs' ≠ [] := by
+  intro ops
+  induction ops with
+  | nil => intro xs ops' xs' h hx; simp [reduceInfix] at h; obtain ⟨_, h⟩ := h; subst h; exact hx
+  | cons o ops ih =>
+    intro xs ops' xs' h hx
+    unfold reduceInfix at h
+    split at h
+    · split at h
+      · simp at h
+      · rename_i hpop
+        exact ih _ _ _ h (popOperator_nonempty hpop)
+    · split at h
+      · simp at h
+      · simp at h; obtain ⟨_, h⟩ := h; subst h; exact hx
+
+/-- without prefix rows, a table that fails has not moved: it fails only on its first operand -/
+theorem genOT_fail_pos {F : FlagTable} {run : Run} (hs : Sound F run) (T : TableExprs)
+    (hpre : T.prefixes = none)
+    (hop : (flagsOf F T.operands).cps = false ∨ (flagsOf F T.operands).as = true) (p0 : Nat) :
+    ∀ fuel ph st last r, genOT F run T fuel ph st last = some r →
+    (((ph = .post ∨ ph = .inf) → st.operands ≠ []) ∧ (st.operands = [] → st.pos = p0)) →
+    r.status = false → r.pos = p0 := by
+  intro fuel
+  induction fuel with
+  | zero => intro ph st last r h; simp [genOT] at h
+  | succ n ih =>
+    intro ph st last r h hinv hst
+    cases ph with
+    | pre =>
+      simp only [genOT, hpre] at h
+      exact ih _ _ _ _ h ⟨by simp, hinv.2⟩ hst
+    | operand =>
+      simp only [genOT] at h
+      split at h
+      · simp at h
+      · rename_i r' hr'
+        split at h
+        · exact ih _ _ _ _ h ⟨by simp, by simp⟩ hst
+        · rename_i hok
+          have hf := okF_false (F := F) (by simpa using hok)
+          split at h
+          · rename_i hemp
+            simp at h; subst h
+            have hp := hinv.2 (by simpa using hemp)
+            rcases hop with hc | ha
+            · simp only; rw [← hp]; exact hs.fail_pos hr' hc hf.2
+            · simp [hf.1] at ha
+          · split at h
+            · simp at h
+            · simp at h; subst h; simp at hst
+    | post =>
+      have hne : st.operands ≠ [] := hinv.1 (Or.inl rfl)
+      simp only [genOT] at h
+      split at h
+      · exact ih _ _ _ _ h ⟨fun _ => hne, fun he => absurd he hne⟩ hst
+      · split at h
+        · simp at h
+        · split at h
+          · split at h
+            · simp at h
+            · split at h
+              · simp at h
+              · split at h
+                · simp at h
+                · exact ih _ _ _ _ h ⟨by simp, by simp⟩ hst
+          · exact ih _ _ _ _ h ⟨fun _ => hne, fun he => absurd he hne⟩ hst
+    | inf =>
+      have hne : st.operands ≠ [] := hinv.1 (Or.inr rfl)
+      simp only [genOT] at h
+      split at h
+      · split at h
+        · simp at h
+        · simp at h; subst h; simp at hst
+      · split at h
+        · simp at h
+        · split at h
+          · split at h
+            · simp at h
+            · split at h
+              · simp at h
+              · split at h
+                · simp at h
+                · simp at h; subst h; simp at hst
+              · rename_i ops' operands' hred
+                have hne' := reduceInfix_nonempty _ _ _ _ _ hred hne
+                exact ih _ _ _ _ h ⟨by simp, fun he => absurd he hne'⟩ hst
+          · split at h
+            · simp at h
+            · simp at h; subst h; simp at hst
+
 theorem minClass_zero {m : Nat} : minClass m = .zero ↔ m = 0 := by
   unfold minClass; split <;> simp_all; split <;> simp
 
@@ -487,5 +663,45 @@ theorem gen_sound (hF : LocallySound F) (P : Program) (inp : List Nat) :
       split at h <;> simp at h <;> subst h <;> simp [flagsOf, hF.backtrack]
     | fail => simp only [gen] at h; simp at h; subst h; simp [flagsOf, hF.fail]
     | py v => simp only [gen] at h; simp at h; subst h; simp
+    | tagged x tag =>
+      simp only [gen] at h
+      split at h
+      · simp at h
+      · rename_i r' hr'
+        constructor
+        · intro ha
+          have hax := (hF.apply_as _ _ (by simpa [flagsOf] using ha)).1
+          have hok : okF F x r' = true := by simp [okF, hax]
+          simp [hok] at h; subst h; rfl
+        · intro hc hf
+          by_cases hok : okF F x r' = true
+          · simp [hok] at h; subst h; simp at hf
+          · simp [hok] at h; subst h
+            have hfx := okF_false (F := F) (by simpa using hok)
+            rcases hF.apply_cps _ _ (by simpa [flagsOf] using hc) with h2 | ⟨h2, _⟩
+            · have := (hF.apply_as _ _ h2).1; simp [hfx.1] at this
+            · rcases h2 with h2 | h2
+              · exact ih.fail_pos hr' h2 hf
+              · simp [hfx.1] at h2
+    | optable pre operand mixfix post inf =>
+      simp only [gen] at h
+      have hflag : flagsOf F (.optable pre operand mixfix post inf) =
+          F.optable (!pre.isEmpty) (flagsOf F (tableExprs pre operand mixfix post inf).operands) := by
+        simp only [flagsOf, tableExprs]
+        cases mixfix with
+        | nil => simp [combineRows]
+        | cons m ms => simp [combineRows, flagsOf, anyAs, anyCps]
+      have h1 : (flagsOf F (.optable pre operand mixfix post inf)).as = true → r.status = true := by
+        intro ha
+        rw [hflag] at ha
+        exact genOT_as _ (hF.optable_as _ _ ha) _ _ _ _ _ h
+      refine ⟨h1, fun hc hf => ?_⟩
+      rw [hflag] at hc
+      rcases hF.optable_cps _ _ hc with h2 | ⟨h2, h3⟩
+      · have := h1 (by rw [hflag]; exact h2); simp [this] at hf
+      · have hpre : (tableExprs pre operand mixfix post inf).prefixes = none := by
+          have : pre = [] := by cases pre <;> simp_all
+          simp [tableExprs, this, combineRows]
+        exact genOT_fail_pos ih _ hpre h3 p _ _ _ _ _ h ⟨by simp, fun _ => rfl⟩ hf
 
 end Sourcer
